@@ -213,3 +213,29 @@ Example C06_hist_example :
   aget N.eq_dec 7 (s_events s) = Some (lpid 1001) /\ length (rels (s_tm s)) = 3%nat /\
   rels (s_tm (fst (exec (OTerminate (lpid 1001) 12) s))) = [].
 Proof. vm_compute. repeat split; reflexivity. Qed.
+Print Assumptions C06_hist_example.
+
+(* ---- the registered name of a process that is still initialising (Rel/InitFail.v; node.spawn claims the name
+   before ProcessInit runs and gives it back when ProcessInit fails) ------------------------------------------
+   After EVERY history of SpawnRegister calls held inside ProcessInit, successful and failing initialisations,
+   node.UnregisterName / node.RegisterName by anybody in between and terminations: whoever the name table binds
+   a name to holds that name in its record and exists, and whoever holds a name in its record owns the table
+   entry - a failing initialisation never takes away a name that meanwhile belongs to somebody else *)
+Require Ergo.Rel.InitFail Ergo.Rel.InitFailProofs.
+Theorem C06_initfail_agree : forall l, Ergo.Rel.InitFail.agree_tr (Ergo.Rel.InitFail.irun l).
+Proof. exact Ergo.Rel.InitFailProofs.initfail_agree. Qed.
+Print Assumptions C06_initfail_agree.
+
+(* giving back the name the spawn ASKED for instead of the name the process HOLDS is refuted *)
+Theorem C06_initfail_by_requested_name_refuted :
+  exists req l, ~ Ergo.Rel.InitFail.agree_tr (fold_left (Ergo.Rel.InitFail.istep_req req) l Ergo.Rel.InitFail.ist0).
+Proof. exact Ergo.Rel.InitFailProofs.initfail_by_requested_name_refuted. Qed.
+Print Assumptions C06_initfail_by_requested_name_refuted.
+
+Example C06_initfail_example :
+  Ergo.Rel.InitFail.agree_b (Ergo.Rel.InitFail.irun Ergo.Rel.InitFailProofs.ex_hist) = true /\
+  Ergo.Rel.InitFail.i_names (Ergo.Rel.InitFail.irun Ergo.Rel.InitFailProofs.ex_hist) = [(7, 1002)]%N /\
+  Ergo.Rel.InitFail.i_live (Ergo.Rel.InitFail.irun Ergo.Rel.InitFailProofs.ex_hist) = [1002]%N /\
+  Ergo.Rel.InitFail.agree_b (fold_left (Ergo.Rel.InitFail.istep_req Ergo.Rel.InitFailProofs.ex_req) Ergo.Rel.InitFailProofs.ex_hist Ergo.Rel.InitFail.ist0) = false.
+Proof. exact Ergo.Rel.InitFailProofs.initfail_example. Qed.
+Print Assumptions C06_initfail_example.
